@@ -42,6 +42,11 @@ class MyBase(BaseException):
 
 
 EXC = {0: C0, 1: C1, 2: C2, 5: C5, 9: Exception}
+# built-in exception classes user code raises all the time (the framework's own `except` clauses name some of them);
+# ids >= 10 are raised only, never registered as handler classes, and unrelated to each other
+BUILTIN_EXC = {10: KeyError, 11: ValueError, 12: TypeError, 13: AttributeError, 14: RuntimeError, 15: IndexError,
+               16: StopIteration, 17: AssertionError, 18: ZeroDivisionError, 19: OSError, 20: UnicodeDecodeError}
+EXC.update(BUILTIN_EXC)
 
 
 # ---------------------------------------------------------------------------------------
@@ -176,6 +181,8 @@ def act(tok, arg=None):
     if p[0] == "abr":
         raise HTTPException(_factories["R" + p[1]].make())
     if p[0] == "exc":
+        if int(p[1]) == 20:
+            raise UnicodeDecodeError("utf-8", b"\xff", 0, 1, "verif")
         raise EXC.get(int(p[1]), C5)("verif")
     if p[0] == "sysexit":
         raise SystemExit(3)
@@ -564,7 +571,7 @@ def rand_fail(rng):
         f = rng.choice([x for x in pool()["resps"]])
         return "abr~" + f.tok[1:]
     if r < 0.85:
-        return "exc~%d" % rng.choice([0, 1, 2, 5])
+        return "exc~%d" % rng.choice([0, 1, 2, 5] + (sorted(BUILTIN_EXC) if rng.random() < 0.3 else []))
     return rng.choice(["sysexit", "conn", "base"])
 
 
